@@ -28,9 +28,9 @@ def run(ctx):
     mc = 4 if quick else 6
     jobs = [
         dict(ctx=ctx, binary=binary, name="single", stacks=single, outs=OUTS, maxcalls=mc + 1 if quick else 6, execs=2 if quick else 1, workers=6),
-        dict(ctx=ctx, binary=binary, name="single2", stacks=single, outs=seq.OUTS3, maxcalls=4, execs=2, workers=6),
+        dict(ctx=ctx, binary=binary, name="single2", stacks=single, outs=seq.OUTS3, maxcalls=4 if quick else 5, execs=2, workers=6),
         dict(ctx=ctx, binary=binary, name="nested", stacks=nested, outs=seq.OUTS3, maxcalls=mc, execs=1, workers=6),
-        dict(ctx=ctx, binary=binary, name="mixed", stacks=mixed, outs=seq.OUTS3, maxcalls=mc, execs=2 if not quick else 1, workers=6),
+        dict(ctx=ctx, binary=binary, name="mixed", stacks=mixed, outs=seq.OUTS3, maxcalls=4, execs=2 if not quick else 1, workers=6),
         dict(ctx=ctx, binary=binary, name="timed", stacks=timed, outs=OUTS_T, maxcalls=mc, execs=1, workers=6),
     ]
     typed = [["rpT"], ["rpTR"], ["rpT", "cbTy"], ["rpTR", "fbT"], ["fbT", "rpT"], ["rpT", "rpTR"]]
